@@ -17,6 +17,7 @@ using MUTEX = tbb::rw_mutex;
 using MUTEX = tbb::mutex;      // (the shim renames the token `mutex`; tbb::mutex is tbb::verif_mutex in this TU)
 #define WORD(m) (&(m).my_flag.my_atomic)
 #endif
+#include "hb.h"
 #include <cstdio>
 #include <cstring>
 #include <map>
@@ -49,36 +50,38 @@ static bool run_once(verif::Schedule& sch, int run_idx, bool print) {
     std::vector<std::function<void()>> bodies;
     for (size_t t = 0; t < T; ++t) bodies.push_back([&, t] {
         Mode held = NONE;
-        auto acquire_w = [&] { if (g.W || g.R) g.err = "writer entered while held (W=" + std::to_string(g.W) + ",R=" + std::to_string(g.R) + ")"; g.W = 1; g.wgen++; held = WR; };
-        auto acquire_r = [&] { if (g.W) g.err = "reader entered while a writer holds"; g.R++; held = RD; };
+        auto acquire_w = [&] { if (g.W || g.R) g.err = "writer entered while held (W=" + std::to_string(g.W) + ",R=" + std::to_string(g.R) + ")"; g.W = 1; g.wgen++; held = WR; cs_w(); };
+        auto acquire_r = [&] { if (g.W) g.err = "reader entered while a writer holds"; g.R++; held = RD; cs_r(); };
         (void)acquire_r;
         for (auto& op : g_progs[t]) {
             if (op == "work") { for (int i = 0; i < 12; ++i) g_dummy.fetch_add(1, std::memory_order_relaxed); }
             else if (op == "lock" && held == NONE) { eff[t].push_back(op); m.lock(); acquire_w(); }
             else if (op == "try_lock" && held == NONE) { eff[t].push_back(op); bool b = m.try_lock(); res[t].push_back(b); if (b) acquire_w(); }
-            else if (op == "unlock" && held == WR) { eff[t].push_back(op); g.W = 0; held = NONE; m.unlock(); }
+            else if (op == "unlock" && held == WR) { eff[t].push_back(op); cs_w(); g.W = 0; held = NONE; m.unlock(); }
 #ifdef RWM
             else if (op == "lock_shared" && held == NONE) { eff[t].push_back(op); m.lock_shared(); acquire_r(); }
             else if (op == "try_lock_shared" && held == NONE) { eff[t].push_back(op); bool b = m.try_lock_shared(); res[t].push_back(b); if (b) acquire_r(); }
-            else if (op == "unlock_shared" && held == RD) { eff[t].push_back(op); g.R--; held = NONE; m.unlock_shared(); }
+            else if (op == "unlock_shared" && held == RD) { eff[t].push_back(op); cs_r(); g.R--; held = NONE; m.unlock_shared(); }
             else if (op == "upgrade" && held == RD) {
                 eff[t].push_back(op);
                 long gen0 = g.wgen;
+                cs_r();
                 g.R--;
                 bool b = m.upgrade();
                 res[t].push_back(b);
                 if (b && g.wgen != gen0) g.err = "upgrade returned true although another writer held the lock in between";
                 acquire_w();
             }
-            else if (op == "downgrade" && held == WR) { eff[t].push_back(op); g.W = 0; g.R++; held = RD; m.downgrade(); }
+            else if (op == "downgrade" && held == WR) { eff[t].push_back(op); cs_w(); g.W = 0; g.R++; held = RD; m.downgrade(); cs_r(); }
 #endif
         }
-        if (held == WR) { eff[t].push_back("unlock"); g.W = 0; m.unlock(); }
+        if (held == WR) { eff[t].push_back("unlock"); cs_w(); g.W = 0; m.unlock(); }
 #ifdef RWM
-        else if (held == RD) { eff[t].push_back("unlock_shared"); g.R--; m.unlock_shared(); }
+        else if (held == RD) { eff[t].push_back("unlock_shared"); cs_r(); g.R--; m.unlock_shared(); }
 #endif
     });
     verif::Result r = verif::run(bodies, sch);
+    if (g.err.empty()) g.err = cs_hb(r, bodies.size());
     bool ok = g.err.empty() && !r.deadlock;
     if (print || !ok) {
         printf("run %d\n", run_idx);
